@@ -105,6 +105,11 @@ class BDWorld(World):
         self.input_fp = input_fingerprint(self.H, self.kwargs)
         self.comps = [block_diagonalize(self.H, **self.kwargs) for _ in range(copies)]
         roots = [o for c in self.comps for o in c]
+        # a user-level Hermitian product of the returned series (the usual unitarity check)
+        from pymablock.series import cauchy_dot_product
+
+        self.products = [cauchy_dot_product(c[2], c[1], hermitian=spec["hermitian"]) for c in self.comps]
+        roots += self.products
         super().__init__(roots)
         self.scopes = [c[0].eval.__globals__ for c in self.comps]
         self.handed = []  # (value, fingerprint) of everything returned to the "caller"
@@ -124,6 +129,9 @@ class BDWorld(World):
         if kind == "v":  # finite-only index -> view, then infinite index
             _, _, w, fin, inf = letter
             return self.comps[c][w][decode_index(fin)][decode_index(inf)]
+        if kind == "p":  # element of the user-level product U_inv @ U
+            _, _, idx = letter
+            return self.products[c][tuple(idx)]
         if kind == "i":  # internal series element
             _, _, name, idx = letter
             return self.scopes[c]["series"][name][tuple(idx)]
